@@ -6,6 +6,7 @@ package upload
 
 import (
 	"bytes"
+	"encoding/json"
 	"fmt"
 	"math"
 	"os"
@@ -267,6 +268,13 @@ func TestVerifC02Gating(t *testing.T) {
 			}
 
 			x := c02XFor(t, cfg.SampleRate)
+			// X is drawn per report: in one run of three the uploader's successive draws alternate between two
+			// values, so that the weeks built in one run can fall on different sides of the sample rate
+			xs := []float64{x}
+			if rapid.IntRange(0, 2).Draw(t, "varyX") == 0 {
+				xs = append(xs, c02XFor(t, cfg.SampleRate))
+			}
+			draws := 0
 			status := rapid.SampledFrom([]int{200, 200, 200, 200, 500, 503, 400, 404, 408, 429}).Draw(t, "serverStatus")
 			srv.Status = func(vuRequest) int { return status }
 			before := vsnap.Take(dir)
@@ -283,7 +291,8 @@ func TestVerifC02Gating(t *testing.T) {
 				for i := range b {
 					b[i] = 0
 				}
-				f := (x + 1) / 2
+				f := (xs[draws%len(xs)] + 1) / 2
+				draws++
 				if len(b) >= 8 {
 					bits := math.Float64bits(f)
 					for i := 0; i < 8; i++ {
@@ -334,7 +343,40 @@ func TestVerifC02Gating(t *testing.T) {
 						w.earliest = f.Begin
 					}
 				}
-				w.uploadable = gate.WeekUploadable(w.end, w.earliest, x)
+				xw := x
+				if len(xs) > 1 {
+					// which of the driven values this week's report drew is recorded in its local report
+					var rep struct{ X float64 }
+					data, _ := os.ReadFile(filepath.Join(dir, "local", "local."+wk+".json"))
+					if json.Unmarshal(data, &rep) == nil && (rep.X == xs[0] || rep.X == xs[1]) {
+						xw = rep.X
+						if xs[0] != xs[1] {
+							vstats.Label("xVariesWithinRun")
+						}
+					} else if gate.WeekUploadable(w.end, w.earliest, xs[0]) != gate.WeekUploadable(w.end, w.earliest, xs[1]) {
+						// (a local report that was not written in this run: the week's X is not known to the model)
+						vstats.Label("xOfWeekUnknown")
+						_, ready := after["local/"+wk+".json"]
+						if _, done := after["upload/"+wk+".json"]; done {
+							ready = true
+						}
+						for _, r := range reqs {
+							if r.Path == "/"+wk {
+								ready = true
+							}
+						}
+						if !ready {
+							xw = xs[1]
+							if gate.WeekUploadable(w.end, w.earliest, xs[0]) == false {
+								xw = xs[0]
+							}
+						} else if !gate.WeekUploadable(w.end, w.earliest, xs[0]) {
+							xw = xs[1]
+						}
+					}
+				}
+				w.uploadable = gate.WeekUploadable(w.end, w.earliest, xw)
+				x := xw
 				if named, err := time.Parse("2006-01-02", wk); err == nil && !named.Equal(w.end) {
 					// A file that records its end in a zone east of UTC: the week named D ended, as an instant, some
 					// hours before D 00:00 UTC, and "no more than 21 days before the run" has two readings (the
